@@ -735,25 +735,123 @@ Fixpoint has_pas0 (s : schema) : bool :=
   | SObj _ ps => existsb (fun p : prop => has_pas0 (snd p)) ps
   end.
 
+(* null type with a binaryFormat that is not padding (binary_format_validator, every direct
+   property since fix 92f0f20) *)
+Definition null_nonpad (s : schema) : bool :=
+  match s with
+  | SLeaf TNull (Some (BPad _)) _ => false
+  | SLeaf TNull (Some _) _ => true
+  | _ => false
+  end.
+
+(* StructCodec.has_exhaust_array (fix 7f77db5) *)
+Fixpoint has_exhaust (s : schema) : bool :=
+  match s with
+  | SLeaf _ _ _ => false
+  | SArr AExhaust _ => true
+  | SArr _ it => has_exhaust it
+  | SObj _ ps => existsb (fun p : prop => has_exhaust (snd p)) ps
+  end.
+
+(* StructCodec.can_decode_empty (fix fd16390); struct.calcsize is never negative *)
+Fixpoint can_decode_empty (s : schema) : bool :=
+  match s with
+  | SLeaf TNull None _ => true
+  | SLeaf _ None _ => false
+  | SLeaf _ (Some f) _ => bsize f <=? 0
+  | SArr (AFixed n) it => (n <=? 0) || can_decode_empty it
+  | SArr AExhaust _ => true
+  | SArr (ALen _) _ => false
+  | SObj _ ps => forallb (fun p : prop => can_decode_empty (snd p)) ps
+  end.
+
+Definition cthen (a : cres) (b : cres) : cres := match a with CAccept => b | e => e end.
+
+(* make_encode at construction: struct.Struct("<" + sub_schema["binaryFormat"]) is built eagerly
+   for numeric leaves only (the string encoder reads the key lazily) *)
+Fixpoint mk_encode (s : schema) : cres :=
+  match s with
+  | SLeaf (TNumber | TInteger | TBoolean) None _ => CKeyErr
+  | SLeaf _ _ _ => CAccept
+  | SArr _ it => mk_encode it
+  | SObj _ ps => fold_right (fun (p : prop) acc => cthen (mk_encode (snd p)) acc) CAccept ps
+  end.
+
+(* does a property other than the last one contain an exhaust-buffer array?
+   (check_exhaust_array_is_last) *)
+Fixpoint exhaust_before_last (ps : list prop) : bool :=
+  match ps with
+  | [] => false
+  | [_] => false
+  | p :: r => has_exhaust (snd p) || exhaust_before_last r
+  end.
+
+(* make_decode at construction, first error in traversal order:
+   make_array_decode: nested-exhaust check, then the element decoder, then (exhaust mode only)
+   the zero-width check; make_object_decode: last-property check, then the sub-decoders in
+   property order; leaves read sub_schema["binaryFormat"] eagerly *)
+Fixpoint mk_decode (s : schema) : cres :=
+  match s with
+  | SLeaf TNull _ _ => CAccept
+  | SLeaf _ None _ => CKeyErr
+  | SLeaf _ _ _ => CAccept
+  | SArr m it =>
+      if has_exhaust it then CSchemaErr
+      else cthen (mk_decode it)
+             (match m with
+              | AExhaust => if can_decode_empty it then CSchemaErr else CAccept
+              | _ => CAccept
+              end)
+  | SObj _ ps =>
+      if exhaust_before_last ps then CSchemaErr
+      else fold_right (fun (p : prop) acc => cthen (mk_decode (snd p)) acc) CAccept ps
+  end.
+
+(* the validators' verdict on the top-level object (unchanged by ordering) *)
+Definition top_rules (req : option (list key)) (ps : list prop) : bool :=
+  let req' := match req with
+              | Some r => r
+              | None => map pkey (filter (fun p : prop =>
+                          match p_default (snd (fst p)) with None => true | Some _ => false end) ps)
+              end in
+  existsb (fun p : prop => leaf_needs_format (snd p)) ps          (* binary_format_validator *)
+  || existsb (fun p : prop => null_nonpad (snd p)) ps             (* ... null must be padding *)
+  || existsb (fun p : prop => neg_length (snd p)) ps              (* array_length_validator *)
+  || existsb (fun p : prop => negb (key_in (pkey p) req') &&
+                match p_default (snd (fst p)) with None => true | Some _ => false end) ps.  (* required_validator *)
+
+(* MetadataSchema(): meta-schema + validators, then the codec is built from the *modified*
+   (ordered) schema: make_encode, then make_decode *)
 Definition construct (t : top) : cres :=
   match t_schema t with
   | SObj req ps =>
       (* the binaryFormat regex is plain JSON-schema, so it is applied at every depth;
          c12_pascal_zero_allowed is regenerated from the regex *)
-      if negb c12_pascal_zero_allowed && has_pas0 (t_schema t) then CSchemaErr else
+      if negb c12_pascal_zero_allowed && has_pas0 (t_schema t) then CSchemaErr
+      else if top_rules req ps then CSchemaErr
+      else let s' := modify (t_schema t) in cthen (mk_encode s') (mk_decode s')
+  | _ => CSchemaErr          (* top-level "type" must be object / [object, null] *)
+  end.
+
+(* the constructor as it was at the pinned commit 380c75d (before the fix: commits): no check on
+   exhaust-buffer arrays, null formats checked only for a property called "null", "0p" accepted.
+   Kept as a historical record for the *_pinned_refuted theorems. *)
+Definition construct_pinned (t : top) : cres :=
+  match t_schema t with
+  | SObj req ps =>
       let req' := match req with
                   | Some r => r
                   | None => map pkey (filter (fun p : prop =>
                               match p_default (snd (fst p)) with None => true | Some _ => false end) ps)
                   end in
-      if existsb (fun p : prop => leaf_needs_format (snd p)) ps then CSchemaErr          (* binary_format_validator *)
-      else if existsb (fun p : prop => neg_length (snd p)) ps then CSchemaErr            (* array_length_validator *)
+      if existsb (fun p : prop => leaf_needs_format (snd p)) ps then CSchemaErr
+      else if existsb (fun p : prop => neg_length (snd p)) ps then CSchemaErr
       else if existsb (fun p : prop => negb (key_in (pkey p) req') &&
                          match p_default (snd (fst p)) with None => true | Some _ => false end) ps
-           then CSchemaErr                                                               (* required_validator *)
+           then CSchemaErr
       else if missing_format (t_schema t) then CKeyErr
       else CAccept
-  | _ => CSchemaErr          (* top-level "type" must be object / [object, null] *)
+  | _ => CSchemaErr
   end.
 
 (* ------------------------------------------------------------------ JSON codec *)
